@@ -34,10 +34,10 @@ STREAMS = {
     'hsm-custom-sep': lambda: hsm11.HKnobs(p_custom_sep=1.0, p_clash=0.2, p_override=0.1),
 }
 BUDGET = {   # stream -> (quick: chunks, per chunk), (thorough: chunks, per chunk)
-    'flat': ((12, 70), (48, 400)),
-    'flat-clash': ((4, 60), (16, 300)),
-    'hsm': ((12, 14), (48, 110)),
-    'hsm-custom-sep': ((4, 10), (16, 80)),
+    'flat': ((12, 70), (48, 280)),
+    'flat-clash': ((4, 60), (16, 200)),
+    'hsm': ((12, 14), (48, 75)),
+    'hsm-custom-sep': ((4, 10), (16, 55)),
 }
 
 
